@@ -98,6 +98,14 @@ class Res:
         # an item stream owned by the calling connection (left unfinished when the connection ends)
         # (a generator, a plain list iterator or a map object: the latter two have no close() / throw())
         if n % 3 == 0:
+            if n % 2 == 0:
+                def g():
+                    try:
+                        for i in range(n):
+                            yield i
+                    finally:
+                        raise OSError("the stream's clean-up code failed")      # close() of this generator raises
+                return g()
             return (i for i in range(n))
         if n % 3 == 1:
             return iter(list(range(n)))
@@ -105,6 +113,11 @@ class Res:
 
     def sec(self, tok):
         raise E.SecurityError("denied " + str(tok))
+
+    def kick(self):
+        """server-side code throws its own client out: it closes the socket of the connection it is serving"""
+        cctx.client.sock.close()
+        return "bye"
 
     def boom(self, tok):
         raise ValueError(tok)
@@ -144,7 +157,7 @@ class CDaemon(SV.Daemon):
 
 
 ENDINGS = ["release", "cut_close", "cut_rst", "malformed", "timeout_partial", "timeout_idle", "security", "open", "rst_idle",
-           "oneway_then_close"]
+           "oneway_then_close", "kicked"]
 
 
 class ConnWorld(World):
@@ -156,7 +169,7 @@ class ConnWorld(World):
     STUB = ["sockets/selector (in-memory)", "threads (baton scheduler)", "time (virtual clock)", "raw protocol-speaking peers"]
     PROBES = ["release", "cut_header", "cut_annotations", "cut_payload", "rst", "malformed", "timeout_partial", "timeout_idle", "security",
               "hook_raises", "still_open_ok", "resources_closed", "resources_untracked", "session_instance", "multiplex", "thread",
-              "concurrent_endings", "handshake_failed_conn", "oneway_then_close", "stream_open_at_end", "ctor_tracked_resource",
+              "concurrent_endings", "handshake_failed_conn", "oneway_then_close", "stream_open_at_end", "ctor_tracked_resource", "kicked_by_server_code", "stream_started_at_end",
               "oneway_tracked_resource", "oneway_tracked_after_end", "malformed_truncated_zlib", "slow_disconnect_hook"]
     RULE = ("plan = (server type, COMMTIMEOUT, 2-4 connections each with handshake, 0-2 track calls (n resources, k untracked), optional "
             "session-instance call, an ending kind with byte offset, start delay; optional raising user hook / raising resource close); "
@@ -285,9 +298,16 @@ class ConnWorld(World):
                 for t in spec.get("ow_tracks", []):
                     call(sk, st, "res", "track_ow", (t["n"], sk.conn, t["delay"]), flags=N.FLAG_ONEWAY)
                 for j in range(spec.get("streams", 0)):
-                    m = call(sk, st, "res", "items", (5 + (j + sk.conn) % 3,))
+                    m = call(sk, st, "res", "items", (5 + (j + sk.conn) % 6,))
                     if m["type"] == N.MSG_RESULT and m["flags"] & N.FLAG_STREAM:
                         ctx.probe("stream_open_at_end")
+                        sid = bytes(m["ann"].get("STRM", b"")).decode()
+                        if sid and (j + sk.conn) % 3 != 0:
+                            # one item is fetched: the generator behind the stream has started (its clean-up code runs when it is
+                            # closed or dropped)
+                            m2 = call(sk, st, "Pyro.Daemon", "get_next_stream_item", (sid,))
+                            if m2["type"] == N.MSG_RESULT and not m2["flags"] & N.FLAG_EXC:
+                                ctx.probe("stream_started_at_end")
                 if spec["session"]:
                     m = call(sk, st, "sess", "hello", ())
                     if m["type"] == N.MSG_RESULT and not m["flags"] & N.FLAG_EXC:
@@ -354,6 +374,14 @@ class ConnWorld(World):
                     ctx.probe("security")
                     call(sk, st, "res", "sec", ("s",))
                     r["drain"] = self._drain(sk, 30.0)
+                    sk.close()
+                elif end == "kicked":
+                    ctx.probe("kicked_by_server_code")
+                    try:
+                        call(sk, st, "res", "kick", ())
+                    except (EOFError, OSError):
+                        pass
+                    self._drain(sk, 30.0)
                     sk.close()
                 elif end == "oneway_then_close":
                     ctx.probe("oneway_then_close")
